@@ -1,10 +1,10 @@
 #!/bin/sh
-# usage: tools/seedbatch.sh <logfile> <src-root> <id:prop> ...   (src-root/<id> holds patch.diff demo.py meta.json; or /verif/seeded)
+# usage: tools/seedbatch.sh <logfile> <id:prop[,prop...]> ...   (the seed is taken from /verif/seeded/<id> or /tmp/w*/_out/<id>)
 log=$1; shift
 for x in "$@"; do
-  id=${x%%:*}; p=${x##*:}
+  id=${x%%:*}; p=$(echo ${x##*:} | tr ',' ' ')
   src=/verif/seeded/$id
-  [ -d "$src" ] || src=/tmp/w3_${id%%_*}/_out/$id
+  [ -d "$src" ] || src=$(ls -d /tmp/w*/_out/$id 2>/dev/null | head -1)
   echo "=== $id" >> $log
   python3 /verif/tools/seedtest.py $src $id $p 2>&1 | tail -3 >> $log
 done
